@@ -68,6 +68,19 @@ CHECKS = {
                 '(quick) / 90 (thorough) bytes, sampled beyond; close-delimited framing excluded by the property.',
         'technique': 'TLA+ reference parser (Http.tla) + TLC batch validation (TraceParse) of recorded segmented executions of the real parser',
     },
+    'C09': {
+        'text': 'Design model PluginChain.tla of the plugin chain of one connection (before_upstream_connection -> connect -> '
+                'handle_client_request -> forward -> handle_upstream_chunk -> access-log chain -> on_upstream_connection_close) over '
+                'PROGRAMS (each plugin passes / modifies / drops / rejects per hook) x auth x endings x 3 requests; TLC checks '
+                'ChainOrder, SeenChain, DropSuppresses, RejectClean, BadAuthClean, LifecycleOnce exhaustively. tlc -simulate behaviours '
+                'name programs; plugin classes are synthesised from them and the REAL handler + HttpProxyPlugin execute the conversation; '
+                'the recorded hook-call log (with the modifications each hook saw), connects, forwarded requests and client output are '
+                'stepped through the same actions by TLC (TraceChain), with the design invariants evaluated on every trace state.',
+        'design_ref': 'DESIGN.md section 6, C09',
+        'note': 'Trusted: TLC, SimNet. Programs bounded (<= MAXDEV deviating hooks per plugin, 1..3 plugins); lock-step origin.',
+        'technique': 'TLA+ design model (PluginChain) exhaustively checked + TLC-generated programs executed on the real plugin chain + '
+                     'TLC trace validation (TraceChain) of the recorded hook-call logs',
+    },
     'C15': {
         'text': 'Reference codec in TLA+ (Http.tla) whose own laws are model-checked exhaustively (CodecLaws: Dechunk o Enchunk = id for '
                 'every body <= L over a chunk-syntax alphabet, every chunk size <= S, arbitrary tails; message laws). Recorded executions '
